@@ -47,14 +47,18 @@ SPEC = {
         "Go's strconv float text (FormatFloat 'g' -1 64 / ParseFloat) is a parameter of the model (FloatCodec); its round trip is a "
         "hypothesis of ValExpressible, checked by the Go oracle on every float",
         "encoding/json Marshal/Unmarshal carry the model's Json tree faithfully (strings: valid UTF-8 only)",
+        "harness/c01b/extract (go/ast): regenerates Hive/Gen/C01b_Facts.lean - normalised statement lists of the 34 functions the model was "
+        "written against, the reflect.Kind tables and the member-name constants - compared by decide with the frozen copy "
+        "Hive/Spec/SerixJsonSource.lean (C01_json_source_*/_kinds_*/_const_*): the normalisation (white space, elided error texts) is trusted",
         "Go toolchain, compiled Lean driver",
     ],
     "modelled": [
         "mapEncode/mapDecode for bool, (u)int8..64, float32/64, string, []byte, byte arrays, typed byte arrays (object code + key), "
-        "big.Int, time, slices, arrays, maps, structs (named/optional/omitempty/embedded/inlined fields, object codes), pointers, interfaces; "
-        "min/max length validation",
+        "big.Int, time (every instant: TimeToUint64 saturates to 0 before the epoch and to MaxInt64 from 2^63 ns on), slices, arrays, maps, "
+        "structs (named/optional/omitempty/embedded/inlined fields, object codes - registered or handed over by WithTypeSettings), pointers, interfaces; "
+        "min/max length validation; strconv / hexutil text incl. alternative spellings; amd64 float-to-integer conversion of out-of-range numbers",
         "NOT modelled: SerializableJSON/DeserializableJSON and validator callbacks, ArrayRules.MustOccur, inlined interfaces/pointers, "
-        "object codes on non-byte slices, non-UTF-8 strings, JSON numbers with fraction/exponent, times beyond 2^63 ns",
+        "object codes on non-byte slices, non-UTF-8 strings, JSON numbers with fraction/exponent, time zones (a time is its instant)",
     ],
     "manifest": {
         "text": "JSON/map form of serix. Theorems over every schema (structs with named/optional/omitempty/embedded/inlined fields and object codes, "
@@ -62,9 +66,14 @@ SPEC = {
                 "validation on/off and any float text codec: mapDecode(mapEncode v) = v for every expressible type and value (C01_json_roundtrip, "
                 "C01_json_api_roundtrip) and = canon v - the documented result: nil collections come back empty, omitempty leaves the zero value, "
                 "times before the epoch saturate, NaN payloads are canonicalised - for every well-typed value (C01_json_roundtrip_canon), a Go map round-trips in every iteration order (C01_json_map_any_iteration_order), and decoding does not depend "
-                "on the order of object members at any depth (C01_json_key_order_irrelevant, JPerm/VEquiv). The hand-written model is re-validated on "
+                "on the order of object members at any depth (C01_json_key_order_irrelevant, JPerm/VEquiv); conversely two listings of the same Go value (map entries in "
+                "any order at any depth) are encoded to the same JSON object up to member order, both or neither succeeding (C01_json_encode_order_irrelevant). "
+                "Instants of every range are modelled (TimeToUint64 saturation on both sides). The code the model was written against is pinned: statement lists of "
+                "34 functions, the Kind tables and constants are regenerated from the working tree on every run and compared with a frozen copy by 39 decide-obligations. The hand-written model is re-validated on "
                 "every run against random reflect-built Go types registered in a fresh serix.API: JSONEncode vs mapEncode, JSONDecode vs mapDecode on the "
-                "produced document, on the document with every object's members shuffled and on documents with a member removed/added; "
+                "produced document, on the document with every object's members shuffled, on documents with a member removed/added, under the other validation mode, "
+                "with decimal/hex texts respelled (also as additional member names: duplicate map keys) and with numbers at the edge of the integer kinds; "
+                "Go-only oracles encode-twice and MapDecode-vs-JSONDecode; "
                 "JsonExpressible/ValExpressible/WellTyped verdicts and canon are compared with an independent Go statement; the Go-only oracle "
                 "JSONDecode(JSONEncode(v)) = documented result (exact: nil-ness, float bits) "
                 "turns a broken tie into a failing input.",
